@@ -82,6 +82,8 @@ FIXED = [
  "fixed: property=C18 651e96b '--config Arm/vela.ini' (documented example) rejected with 'Section ... not found' unless the working directory contains Arm/vela.ini; a decoy Arm/vela.ini in the working directory was used instead of the bundled one (vela.py passed args.config instead of the resolved paths)",
  "fixed: property=C18 4b72eeb arena_cache_size of the selected memory mode ignored (option default 393216 always 'overrode' the file; out-of-range file values accepted silently)",
  "fixed: property=C01 ab37afd a slice of a slice (STRIDED_SLICE ; STRIDED_SLICE ; any NPU consumer, or SPLIT output sliced again) lost one of the two read offsets/shapes: move_splitsliceread_to_consumer overwrote the consumer's own read offset, so the consumer read the wrong window and depth (conv weights encoded for 6 input channels while IFM_DEPTH said 28) (findings/FX-slice-of-slice.C01.json)",
+ "fixed: property=C01 8235dbe CONV_2D with stride 2 and dilation 2 as first operator of a network (IFM depth * stride <= 8): fixup_strided_conv folded IFM/filter columns into the depth but kept the dilation, sampling the wrong columns (findings/FX-strided-conv-dilation.C01.json)",
+ "fixed: property=C01 130e17a HARD_SWISH lookup table wrong by far more than one step for inputs in the upper half of the range: shift_left16/32 wrapped in int16/int32 before the saturation test under NumPy 2 (findings/FX-hard-swish-saturating-shift.C01.json)",
  "fixed: property=C12 3e245fc elementwise operator executed in place over an NPU-subgraph input (produced by a CPU operator) that a later subgraph still reads: CONV_2D(stride 4, CPU) -> MINIMUM(NPU) -> CUSTOM(CPU) ; RELU of the conv output in a second NPU subgraph (findings/F05-inplace-elementwise-shared-input.C12.json)",
 ]
 EXTRA = [
